@@ -12,7 +12,7 @@ import (
 func init() {
 	register(&PropDef{
 		ID: "C19", Level: "exploration", Quick: 400000, Thorough: 3000000, QuickCap: 100,
-		Rule: "each run = 2-4 tasks x 1-3 rounds over 1-2 keys calling Lock/Unlock/Run on the real TransientLockMap, with 0-2 context-cancel events and optional bad-unlock calls, interleaved at every internal step by the seeded scheduler; distinct = distinct hash of the (task, scheduling point) trace; non-trivial = at least one preemption or one cancel event",
+		Rule: "each run = 2-4 tasks x 1-3 rounds over 1-2 keys calling Lock/Unlock/Run on the real TransientLockMap, with 0-2 context-cancel events (as separate tasks or becoming visible inside one of the Err calls of the context), Run callbacks that panic, and optional bad-unlock calls (of unknown keys and of real keys nobody holds), interleaved at every internal step by the seeded scheduler; distinct = distinct hash of the (task, scheduling point) trace; non-trivial = at least one preemption or one cancel event",
 		Real: []string{"gcsutil.TransientLockMap (Lock, Unlock, Run, returnLockObj)", "gcsutil.countedLock"},
 		Stub: []string{"Go channel blocking in countedLock.Lock is replaced by a wait-until in front of it (the simulator decides the order of cancel and unlock events, so the two-ready-cases select is never reached with both ready)"},
 		Assume: []string{"seeded search, not exhaustive enumeration: the number of distinct interleavings reached is reported",
@@ -92,6 +92,7 @@ func runC19(r *Run) {
 				ci := ps.Intn(nCancel + 1)
 				useRun := ps.Intn(2) == 1
 				bad := ps.Intn(4) == 3
+				cbPanics := ps.Intn(5) == 4
 				var ctx context.Context = context.Background()
 				ctxDone := func() bool { return false }
 				if ci > 0 {
@@ -120,12 +121,28 @@ func runC19(r *Run) {
 				queued[id] = false
 				if useRun {
 					ran := false
-					err := lm.Run(ctx, key, func(context.Context) error {
-						delete(waitingOn, id)
-						ran = true
-						body()
-						return nil
-					})
+					var err error
+					func() {
+						// a callback may panic (net/http recovers a crashing handler above Run):
+						// the key must be released all the same
+						defer func() {
+							if x := recover(); x != nil {
+								if _, mine := x.(c19CallbackPanic); !mine {
+									panic(x)
+								}
+								r.Probe("c19.callback_panicked")
+							}
+						}()
+						err = lm.Run(ctx, key, func(context.Context) error {
+							delete(waitingOn, id)
+							ran = true
+							body()
+							if cbPanics {
+								panic(c19CallbackPanic{})
+							}
+							return nil
+						})
+					}()
 					delete(waitingOn, id)
 					if ran {
 						unlocking[key]--
@@ -249,6 +266,8 @@ func runC19(r *Run) {
 		r.Fail("harness", "", "inCrit=%d", inCrit)
 	}
 }
+
+type c19CallbackPanic struct{}
 
 // simCtx is a cancellable context whose cancellation can become visible inside an Err call.
 type simCtx struct {
